@@ -121,7 +121,13 @@ def _subject_kinds(prog: Program, fn: Func, var: str, depth: int, at: Optional[a
     return kinds
 
 
-def template_kinds(prog: Program, fn: Func, t: ast.AST) -> Optional[Set[str]]:
+def template_kinds(prog: Program, fn: Func, t: ast.AST, depth: int = 0) -> Optional[Set[str]]:
+    if depth > 4:
+        return None
+    if isinstance(t, ast.Call) and (prog.dotted(t.func) or "") in ("tuple", "set", "list", "frozenset", "sorted") and t.args:
+        inner = t.args[0]
+        if isinstance(inner, ast.Call) and (prog.dotted(inner.func) or "") in ("core.filter_nodes", "core.walk") and len(inner.args) >= 2:
+            return template_kinds(prog, fn, inner.args[1], depth + 1)
     if isinstance(t, ast.Tuple):
         out: Set[str] = set()
         for x in t.elts:
@@ -140,7 +146,18 @@ def template_kinds(prog: Program, fn: Func, t: ast.AST) -> Optional[Set[str]]:
     if isinstance(t, ast.Name):
         defs = [v for _, v in assignments(fn, t.id) if v is not None]
         if len(defs) == 1:
-            return template_kinds(prog, fn, defs[0])
+            return template_kinds(prog, fn, defs[0], depth + 1)
+        if defs:
+            out = set()
+            for v in defs:
+                if isinstance(v, ast.Call) and t.id in {n.id for n in ast.walk(v) if isinstance(n, ast.Name)}:
+                    # template = tuple(filter_nodes(.., template)): same kinds as the other definitions
+                    continue
+                k = template_kinds(prog, fn, v, depth + 1)
+                if k is None:
+                    return None
+                out |= k
+            return out or None
     return None
 
 
